@@ -69,6 +69,12 @@ func genWop(c *core.Chooser) wop {
 	case 7:
 		o.n = c.Size(40, 0, 1, 21)
 		o.b = c.Blob(c.Intn(o.n+1), "nonul")
+		if c.Prob(1, 5) {
+			// wide slots: padding of exactly / around a multiple of 64
+			pad := []int{63, 64, 65, 127, 128, 129, 192, 256, 300}[c.Intn(9)]
+			o.b = c.Blob(c.Intn(12), "nonul")
+			o.n = len(o.b) + pad
+		}
 	}
 	return o
 }
@@ -309,6 +315,9 @@ func packetTrunc(r *core.Run, t int) {
 	m := &wmodel{}
 	for i := 0; i < n; i++ {
 		o := genWop(c)
+		if o.kind == 7 && o.n > 60 {
+			o.n, o.b = 21, o.b[:min(len(o.b), 21)]
+		}
 		if len(m.b)+len(o.b)+o.n+9 > 79 {
 			break
 		}
@@ -387,8 +396,17 @@ func packetTrunc(r *core.Run, t int) {
 				v := rd.ReadUint64()
 				got, zero, site = binary.BigEndian.AppendUint64(nil, v), v == 0, "Reader.ReadUint64"
 			case 4:
-				v := rd.ReadNBytes(len(o.b))
-				got, zero, site = v, len(v) == 0, "Reader.ReadNBytes"
+				if len(o.b)%2 == 1 {
+					v := make([]byte, len(o.b))
+					rd.ReadBytes(v)
+					if rd.Error() != nil {
+						v = nil // the receiver of a failed ReadBytes is unspecified
+					}
+					got, zero, site = v, true, "Reader.ReadBytes"
+				} else {
+					v := rd.ReadNBytes(len(o.b))
+					got, zero, site = v, len(v) == 0, "Reader.ReadNBytes"
+				}
 			case 5:
 				v := rd.ReadCStringNWithoutTrim(len(o.b))
 				got, zero, site = []byte(v), v == "", "Reader.ReadCStringNWithoutTrim"
